@@ -33,6 +33,16 @@ def run(tier, seed):
     for feat, f in probes.items():
         stimuli.append({"limit": 5, "ops": [{"op": "add", "f": f, "a": 0, "b": 0}, {"op": "add", "f": 1, "a": 0, "b": 0}, {"op": "restart", "f": 0, "a": 0, "b": 0}]})
         probe_ids[len(stimuli)] = feat
+    # the stash file: the same model without a limit (no compaction): add / clear / restart / death at every step
+    n_hist = len(stimuli)
+    rows, g = gen.bfs(SPEC, "ReplStore", "ReplStore.cfg", {"Limit": 1000, "MaxOps": 7 if quick else 9}, timeout=3000)
+    stimuli += [dict(s, kind="stash") for s in to_stimuli(rows, 1000)]
+    gens.append(g)
+    # the graph merges the states after a torn and after a clean death (the model removes the fragment): what happens
+    # *after* a torn write is reached by random walks
+    rows, g = gen.sim(SPEC, "ReplStore", "ReplStoreSim.cfg", {"Limit": 1000, "MaxOps": 14, "EmitFrom": 6}, num=300 if quick else 4000, depth=60, seed=seed + 7, timeout=3000)
+    stimuli += [dict(s, kind="stash") for s in to_stimuli(rows, 1000)]
+    gens.append(g)
     for i, s in enumerate(stimuli):
         s["id"] = i + 1
     env_dir = os.path.join(common.scratch(), "c20-dirs")
@@ -41,15 +51,21 @@ def run(tier, seed):
     events = pipeline.drive(vdrive, "c20", stimuli, chunk=300)
     res = pipeline.accept(SPEC, "ReplStoreTrace", "ReplStoreTrace.cfg", events, timeout=3000)
     by_id = {s["id"]: s for s in stimuli}
+    hit_stash = False
     for b in res["bad"]:
         s = by_id[b["t"]]
         feat = probe_ids.get(b["t"])
+        if s.get("kind") == "stash" and any(o["op"] == "crash" and o.get("f") == 1 and o.get("point") == "append.write" for o in s["ops"]) and "stash-torn-add" in findings:
+            hit_stash = True
+            continue
         if feat in findings:
             rep.known.append(findings[feat]["summary"])
             continue
         rep.violation({"property": PROP, "stimulus": s, "rejected_event": b["event"], "why": {k: b[k] for k in ("op", "want", "got", "i")}},
-                      f"limit {s['limit']} {json.dumps([[o['op'], o.get('f'), o.get('a'), o.get('b'), o.get('point', ''), o.get('nth', '')] for o in s['ops']])}: "
+                      f"{s.get('kind', 'history')} limit {s['limit']} {json.dumps([[o['op'], o.get('f'), o.get('a'), o.get('b'), o.get('point', ''), o.get('nth', '')] for o in s['ops']])}: "
                       f"step {b['i']} {b['op']} loaded {b['got']} entries, the reference has {b['want']}")
+    if hit_stash:
+        rep.known.append(findings["stash-torn-add"]["summary"])
     # ---- settings: every session a process of its own --------------------------------------------------------
     rows, gs = gen.bfs(SPEC, "ReplSettings", "ReplSettings.cfg", {"MaxOps": 7 if quick else 9}, timeout=3000)
     cfg_stim = [{"id": i + 1, "ops": r["hist"]} for i, r in enumerate(rows)]
@@ -95,5 +111,5 @@ def run(tier, seed):
                     "samples": [stimuli[n_bfs // 2], stimuli[-1]], "gen": gens, "crash_points_exercised": crashes})
     rep.assumptions = ["a process death is simulated by panicking out of the hook in front of the file-system call (and, for a torn write, by writing "
                        "half of the pending bytes first); the operating system is assumed to make completed writes and renames durable",
-                       "the stash file is not part of this check yet; settings are limited to *print-...* variables (see finding C20-F4)"]
+                       "the stash file is replayed with the histories of the same model without a limit; settings are limited to *print-...* variables (see finding C20-F4)"]
     return rep.finish()
